@@ -66,6 +66,7 @@ type Report struct {
 	Samples      []json.RawMessage   `json:"samples"`
 	Counters     map[string]int64    `json:"counters"`
 	Sets         map[string][]string `json:"sets"`
+	Cross        map[string]string   `json:"cross"`
 	Violations   []*Violation        `json:"violations"`
 	Inconclusive []Inconclusive      `json:"inconclusive"`
 	Done         bool                `json:"done"`
@@ -190,6 +191,31 @@ func (r *Runner) Case(desc any, fn func(t *T)) {
 	if r.journal != nil {
 		fmt.Fprintf(r.journal, "%d\tdone\n", i)
 	}
+}
+
+// CaseAll runs fn in every batch (it is not part of the round-robin split): used for
+// observations that must be compared across separately started OS processes.
+func (r *Runner) CaseAll(desc any, fn func(t *T)) {
+	if r.Replay >= 0 {
+		return
+	}
+	saveB, saveN := r.Batch, r.NBatch
+	r.Batch, r.NBatch = 0, 1
+	i := r.next
+	r.next = -1000000 + i // index space of its own, so that it does not shift the split
+	r.Case(desc, fn)
+	r.next = i
+	r.Batch, r.NBatch = saveB, saveN
+}
+
+// Cross records a value that the orchestrator compares across all child processes.
+func (t *T) Cross(name, value string) {
+	t.run.mu.Lock()
+	if t.run.rep.Cross == nil {
+		t.run.rep.Cross = map[string]string{}
+	}
+	t.run.rep.Cross[name] = value
+	t.run.mu.Unlock()
 }
 
 // Index returns the global index of the case.
